@@ -36,7 +36,7 @@ def argclass(e):
     if e["pre"]["b"]["live"] and not onb:
         parts.append("copy-live")
     if op in ("set", "set_pair", "set_keep", "remove", "get", "has_key", "b_set", "b_remove", "b_get", "set_from", "set_own_pair",
-              "set_own_key", "remove_own_key"):
+              "set_own_key", "remove_own_key", "set_component"):
         k = e["args"][0]
         if k in keys:
             pos = "only" if n == 1 else ("smallest" if k == keys[0] else ("largest" if k == keys[-1] else "inner"))
@@ -49,8 +49,11 @@ def argclass(e):
         else:
             pos = "absent-between"
         parts.append("key:" + pos)
-        if op == "set_from":
+        if op in ("set_from", "set_component"):
             parts.append("value-of-same-key" if e["args"][1] == k else "value-of-other-key")
+    ncls = {"set": 2, "set_pair": 2, "set_keep": 2, "set_own_key": 1, "remove": 1, "get": 1, "has_key": 1, "has_value": 1}.get(op, 0)
+    if ncls and 2 in e["args"][-ncls:]:
+        parts.append("url-arg:" + "".join("su"[c - 1] for c in e["args"][-ncls:]))
     if op in ("get_keys", "get_values", "get_pairs"):
         np_, dc, reps = e["args"]
         parts.append("dest=NULL" if np_ < 0 else "dest=%s,prior=%d" % (["", "array", "linked_list", "dlinked_list"][dc], np_))
@@ -126,8 +129,9 @@ def gen_history(rnd, nops, nk, nv):
             # aliased arguments: objects the map itself owns
             j = rnd.choice([min(have), max(have), rnd.choice(sorted(have))])
             c = rnd.choice(["set_from %d %d" % (j, j), "set_from %d %d" % (k, j), "set_own_pair %d" % j, "set_own_key %d %d" % (j, v),
+                            "set_component %d %d" % (j, j), "set_component %d %d" % (k, j),
                             "remove_own_key %d" % j])
-            if c.startswith("set_from"):
+            if c.startswith("set_from") or c.startswith("set_component"):
                 have.add(int(c.split()[1]))
             elif c.startswith("remove_own_key"):
                 have.discard(j)
@@ -167,7 +171,8 @@ def gen_history(rnd, nops, nk, nv):
         else:
             c = "count"
         lines.append(c)
-    return lines
+    from vlib import x_c03
+    return x_c03.add_classes(lines, lambda: rnd.randint(1, 2))
 
 
 def gen_sweep(sizes, nk, nv):
@@ -197,10 +202,11 @@ def gen_sweep(sizes, nk, nv):
                 "get_values 3 %d 2" % (1 + (n + 1) % 3)]
         # every mutator at the position classes; the key set is restored each time
         for k in (pos[0], pos[2], pos[4]):
-            out += ["set %d %d" % (k, val()), "set_pair %d %d" % (k, val()), "set_from %d %d" % (k, k), "set_own_pair %d" % k,
+            out += ["set %d %d" % (k, val()), "set_pair %d %d" % (k, val()), "set_from %d %d" % (k, k), "set_component %d %d" % (k, k),
+                    "set_own_pair %d" % k,
                     "set_own_key %d %d" % (k, val()), "remove %d" % k, "get %d" % k, "set %d %d" % (k, val()),
                     "remove_own_key %d" % k, "set_pair %d %d" % (k, val())]
-        out += ["set_from %d %d" % (pos[4], pos[0]), "set_from %d %d" % (pos[0], pos[4])]
+        out += ["set_from %d %d" % (pos[4], pos[0]), "set_component %d %d" % (pos[0], pos[4])]
         for k in absent:
             out += ["remove %d" % k]
         out += ["set_keep %d %d" % (pos[4], val()), "get %d" % pos[4], "caller_mutates", "get %d" % pos[4], "caller_deletes"]
@@ -232,7 +238,10 @@ def gen_sweep(sizes, nk, nv):
             have.add(k)
             lines += battery()
     assert max(have) + 2 <= nk and state["front"] > 1
-    return lines
+    from vlib import x_c03
+    import itertools
+    rot = itertools.cycle([1, 2, 2, 1, 2, 1, 1])          # deterministic, period prime to the battery's patterns
+    return x_c03.add_classes(lines, lambda: next(rot))
 
 
 def trace_validation(ctx, exe, corrupt=None, sweep=True):
